@@ -48,7 +48,7 @@ typedef struct dtrial {
 	_Atomic uint64_t merged_sum, delivered_sum, merged_union, delivered_union, invocations, merges;
 	_Atomic uint64_t last_delivered;
 	_Atomic uint64_t issued[17];       /* REPLACE: per-thread highest sequence number issued */
-	_Atomic int cancel_ran;
+	_Atomic int cancel_ran, stalled;
 	_Atomic uint64_t via_block[3]; _Atomic int registered; _Atomic uint64_t replacements;
 	uint32_t body_ns; int self_merge_pct;
 	uint64_t salt;
@@ -134,6 +134,7 @@ static void *d_controller(void *arg)
 	dtrial_t *t = c->t;
 	pthread_barrier_wait(&t->bar);
 	while (!atomic_load(&t->stop_ctl)) {
+		if (atomic_load(&t->stalled)) { struct timespec zz = { 0, 20000000 }; nanosleep(&zz, NULL); continue; }
 		int k = (int)vf_rnd_range(&c->rng, 1, 3);
 		for (int i = 0; i < k; i++) dispatch_suspend(t->ds);
 		uint32_t hold = vf_rnd_n(&c->rng, 300000);
@@ -153,11 +154,18 @@ static void *d_replacer(void *arg)
 	dtrial_t *t = arg;
 	int v = 1;
 	while (!atomic_load(&t->stop_ctl)) {
+		if (atomic_load(&t->stalled)) { struct timespec zz = { 0, 20000000 }; nanosleep(&zz, NULL); continue; }
 		int ver = v;
+		uint64_t before = atomic_load(&t->via_block[ver]);
 		dispatch_source_set_event_handler(t->ds, ^{ atomic_fetch_add(&t->via_block[ver], 1); d_handler(t); });
 		atomic_fetch_add(&t->replacements, 1);
 		v = 3 - v;
-		struct timespec ts = { 0, 150000 }; nanosleep(&ts, NULL);
+		/* pace on the library: the next replacement is issued once this version has run (the replacement is a barrier
+		 * item of the source; issuing them faster than the source drains them would be a workload-made backlog that
+		 * starves event delivery), or after 5 ms without events */
+		uint64_t t0 = vf_now_ns(CLOCK_MONOTONIC);
+		do { struct timespec ts = { 0, 150000 }; nanosleep(&ts, NULL); }
+		while (atomic_load(&t->via_block[ver]) == before && vf_now_ns(CLOCK_MONOTONIC) - t0 < 5000000ull && !atomic_load(&t->stop_ctl));
 	}
 	return NULL;
 }
@@ -179,6 +187,7 @@ static void run_data_trial(int idx)
 	t->ds = dispatch_source_create(types[t->type], 0, 0, tq);
 	if (!t->ds) vf_fail("dispatch_source_create(%s) failed", d_names[t->type]);
 	dispatch_set_context(t->ds, t);
+	vf_trace_watch_reset(); vf_trace_watch((char *)t->ds + 56);   /* dq_state of the source */
 	/* function and block forms; the block form captures the trial (Block_copy / dispose paths, ASan) */
 	int hform = (int)vf_rnd_n(&r, 3);       /* 0 functions, 1 blocks, 2 blocks + the event handler is replaced while the source is in use */
 	if (hform == 0) {
@@ -221,7 +230,13 @@ static void run_data_trial(int idx)
 			uint64_t want = atomic_load(&t->merged_union);
 			snprintf(ctx, sizeof(ctx), "source:DATA_OR:merged-mask-must-be-delivered");
 			vf_watch_begin(ctx, 0);
-			while ((atomic_load(&t->delivered_union) & want) != want) { struct timespec w = { 0, 100000 }; nanosleep(&w, NULL); }
+			uint64_t w0 = vf_now_ns(CLOCK_MONOTONIC);
+			while ((atomic_load(&t->delivered_union) & want) != want) {
+				struct timespec w = { 0, 100000 }; nanosleep(&w, NULL);
+				/* nothing delivered for 3 s: the helper threads stop touching the source so that a permanent stall becomes
+				 * a stuck witness, and the recorded atomics on the source's state are dumped (VF_TRACE) */
+				if (!atomic_load(&t->stalled) && vf_now_ns(CLOCK_MONOTONIC) - w0 > 3000000000ull) { atomic_store(&t->stalled, 1); struct timespec z = { 0, 100000000 }; nanosleep(&z, NULL); vf_trace_dump_watched(); }
+			}
 			/* let a running handler invocation finish before the round state is reset */
 			while (atomic_load(&t->in_handler)) sched_yield();
 			rounds_ok++;
